@@ -379,3 +379,138 @@ theorem reduce_reads {regs1 : List (Tensor Cell)} {T1 : Tensor Cell} {x : Nat} {
       have hb := ovr_bnd hnd (mem_allIndices hτ) hv
       have := ravel_lt (valid_idx hb)
       rw [hlen, hsh]; exact this
+
+/-! ### the whole reduction pipeline -/
+
+/-- **The lowering side of reductions.** -/
+theorem lowerReduce_run {f : String} {m : List String} {ein eout : List G} {l : LX}
+    (hout : (names (G.leavesL eout)).Nodup)
+    (hcons : ∀ a ∈ G.leavesL ein, ∀ b ∈ G.leavesL eout, a.name = b.name → a.len = b.len)
+    (h : lowerReduce f m ein eout = .ok l) :
+    (names (G.leavesL ein)).Nodup ∧
+    (∀ a ∈ G.leavesL ein, a.len ≠ 1 → m.contains a.name = false → a.name ∈ names (G.leavesL eout)) ∧
+    ∃ regs T, evalProgG planInstrX symAlg l.prog [symInput 0 (gShape ein)] = .ok regs ∧ regs[l.reg]? = some T ∧
+      T.shape = gShape eout ∧ T.data.length = prod (gShape eout) ∧
+      ∀ val : String → Nat, Bnd val (G.leavesL eout) →
+        (∀ a ∈ G.leavesL ein, m.contains a.name = false → val a.name < a.len) →
+        T.data[ravel (lens (G.leavesL eout)) (idx (G.leavesL eout) val)]? = some (redCell f m (G.leavesL ein) val) := by
+  unfold lowerReduce at h
+  by_cases hop : redOps.contains f = true
+  · simp only [hop, Bool.not_true, Bool.false_eq_true, if_false, pure_bind] at h
+    cases hp : prepInput m { reg := 0, shape := gShape ein, prog := [], next := 1 } 0 ein with
+    | error er => simp [hp, bind, Except.bind] at h
+    | ok x0 =>
+      obtain ⟨sq, s1⟩ := x0
+      simp only [hp, bind, Except.bind] at h
+      have htr0 : Tr [symInput 0 (gShape ein)] { reg := 0, shape := gShape ein, prog := [], next := 1 }
+          [symInput 0 (gShape ein)] := ⟨rfl, rfl⟩
+      obtain ⟨hnd, hsq, ext1, T1, hrun1, hdat1, hR1⟩ := prep_run htr0 rfl hp
+      have hsqmem : ∀ a, a ∈ sq ↔ a ∈ G.leavesL ein ∧ (a.len ≠ 1 ∨ m.contains a.name = true) := by
+        intro a
+        rw [hsq]
+        simp only [squeezedExpr, List.mem_filter, Bool.not_eq_eq_eq_not, Bool.not_true, Bool.and_eq_false_imp, beq_iff_eq,
+          Bool.not_eq_eq_eq_not, Bool.not_false]
+        constructor
+        · rintro ⟨h1, h2⟩
+          refine ⟨h1, ?_⟩
+          by_cases e : a.len = 1
+          · exact Or.inr (h2 e)
+          · exact Or.inl e
+        · rintro ⟨h1, h2⟩
+          refine ⟨h1, ?_⟩
+          intro e
+          rcases h2 with h2 | h2
+          · exact absurd e h2
+          · exact h2
+      have hsqnd : (names sq).Nodup := by rw [hsq]; exact names_nodup_filter hnd _
+      by_cases hcheck : reducedShape s1.shape (exprToAxis m sq) = lens (sq.filter (fun a => !m.contains a.name))
+      · simp only [hcheck, bne_self_eq_false, Bool.false_eq_true, if_false, pure, Except.pure] at h
+        cases hstb : stb { reg := s1.next, shape := lens (sq.filter (fun a => !m.contains a.name)), prog := [], next := s1.next + 1 }
+            (sq.filter (fun a => !m.contains a.name)) (G.leavesL eout) with
+        | error er => rw [hstb] at h; cases h
+        | ok s3 =>
+          simp only [hstb, Except.ok.injEq] at h
+          subst h
+          -- the reduction
+          have hsh1 : T1.shape = lens sq := hR1.1
+          rw [← hrun1.shape, hsh1] at hcheck
+          have hid : ∀ k, k < T1.data.length → T1.data[k]? = some (.src 0 k) := by
+            intro k hk
+            rw [hdat1] at hk ⊢
+            simp only [symInput, List.length_map, List.length_range] at hk
+            simp [symInput, hk]
+          obtain ⟨pl, hpl, hplsh, hpll, hplread⟩ := reduce_reads f m hrun1.reg hsh1 hrun1.len hid hsqnd hcheck
+          generalize hregs1 : [symInput 0 (gShape ein)] ++ ext1 = regs1 at *
+          -- tracing resumes on all registers computed so far
+          have hnext : regs1.length = s1.next := hrun1.next
+          have hrun2 : Run (regs1 ++ [runPlan symAlg regs1 pl])
+              { reg := s1.next, shape := lens (sq.filter (fun a => !m.contains a.name)), prog := [], next := s1.next + 1 }
+              (regs1 ++ [runPlan symAlg regs1 pl]) (runPlan symAlg regs1 pl) :=
+            ⟨rfl, by simp [hnext], by rw [← hnext]; exact List.getElem?_concat_length, hplsh, by
+              rw [runPlan_data]; simpa [runPlan] using hpll⟩
+          generalize hPdef : (fun val : String → Nat => Bnd val (G.leavesL eout) ∧
+            ∀ a ∈ G.leavesL ein, m.contains a.name = false → val a.name < a.len) = P
+          have hexmem : ∀ a ∈ sq.filter (fun a => !m.contains a.name),
+              a ∈ G.leavesL ein ∧ a.len ≠ 1 ∧ m.contains a.name = false := by
+            intro a ha
+            have h1 := List.mem_filter.mp ha
+            have h2 := (hsqmem a).mp h1.1
+            have h3 : m.contains a.name = false := by simpa using h1.2
+            refine ⟨h2.1, ?_, h3⟩
+            rcases h2.2 with h4 | h4
+            · exact h4
+            · rw [h3] at h4; cases h4
+          have hR2 : ReadsC P (redCell f m (G.leavesL ein)) (runPlan symAlg regs1 pl) (sq.filter (fun a => !m.contains a.name)) := by
+            refine ⟨hplsh, ?_⟩
+            intro val hv
+            rw [← hPdef] at hv
+            have := hplread val (fun a ha hm => hv.2 a ((hsqmem a).mp ha).1 hm)
+            rw [this]
+            simp only [redCell, Option.some.injEq]
+            rw [← markedAxes_squeezed m ein, ← hsq]
+            congr 1
+            apply List.map_congr_left
+            intro τ hτ
+            have hb := ovr_bnd hsqnd (mem_allIndices hτ) (fun a ha hm => hv.2 a ((hsqmem a).mp ha).1 hm)
+            congr 1
+            rw [hsq]
+            simp only [squeezedExpr]
+            exact (ravel_map_filter _ _ _ _ (fun a ha hp => by
+              simp only [Bool.not_eq_eq_eq_not, Bool.not_false, Bool.and_eq_true, beq_iff_eq, Bool.not_eq_eq_eq_not,
+                Bool.not_true] at hp
+              have hm' : m.contains a.name = false := hp.2
+              rw [ovr_unmarked hm']
+              have := hv.2 a ha hm'
+              exact ⟨hp.1, by omega⟩)).symm
+          obtain ⟨hsub, ext3, T3, hrun3, hR3⟩ := stb_run hrun2 (names_nodup_filter hsqnd _) hout
+            (fun a ha => (hexmem a ha).2.1)
+            (by
+              intro val hv a ha
+              rw [← hPdef] at hv
+              exact hv.2 a (hexmem a ha).1 (hexmem a ha).2.2)
+            (by intro val hv; rw [← hPdef] at hv; exact hv.1)
+            (fun a ha b hb hn => hcons a (hexmem a ha).1 b hb hn) hR2 hstb
+          obtain ⟨ext4, T4, hrun4, hsh4, hd4⟩ := reshapeW_run hrun3 (gShape eout)
+            (by rw [← hrun3.shape, hR3.1, prod_gShape_leaves])
+          refine ⟨hnd, ?_, _, T4, ?_, hrun4.reg, hsh4, by rw [hrun4.len, hsh4], ?_⟩
+          · intro a ha hne hm
+            apply hsub
+            exact List.mem_map.mpr ⟨a, List.mem_filter.mpr ⟨(hsqmem a).mpr ⟨ha, Or.inl hne⟩, by rw [hm]; rfl⟩, rfl⟩
+          · simp only []
+            rw [evalProgG_append, evalProgG_append, evalProgG_base, hrun1.ev]
+            simp only [ok_bind, evalProgG, hpl, pure, Except.pure]
+            rw [evalProgG_base]
+            exact hrun4.ev
+          · intro val hvo hvi
+            rw [hd4]
+            exact hR3.2 val (by rw [← hPdef]; exact ⟨hvo, hvi⟩)
+      · have : (reducedShape s1.shape (exprToAxis m sq) != lens (sq.filter (fun a => !m.contains a.name))) = true := by
+          simpa using hcheck
+        simp only [this, if_true, throw, throwThe, MonadExceptOf.throw] at h
+        cases h
+  · have hop' : redOps.contains f = false := by
+      cases hc : redOps.contains f with
+      | true => exact absurd hc hop
+      | false => rfl
+    simp only [hop', Bool.not_false, if_true, throw, throwThe, MonadExceptOf.throw, bind, Except.bind] at h
+    cases h
